@@ -570,6 +570,57 @@ theorem accepted_quiet (cfg : Cfg) {m : Mon} {st : St} (ha : AgreeSt m st) (now0
 
 /-! ## soundness -/
 
+/-- **the model never refuses the owner's unpause of a paused contract** (so the monitor's `vUnpause` is silent on a
+call the model rejects), and an accepted call is no concern of that check -/
+theorem vUnpause_rejected (cfg : Cfg) {m : Mon} {st : St} (ha : AgreeSt m st) (w : Bool) (auth : List Nat) (op : GOp)
+    (hap : applyModel cfg st auth op = none) (o : Obs) : vUnpause m (lineOf w auth op) o = none := by
+  unfold vUnpause
+  rw [if_neg]
+  rintro ⟨hk, -, hc, hp, ho, hau⟩
+  cases op with
+  | unpause c =>
+    have hc1 : some c = some m.owner := by simpa [lineOf] using ho
+    have hc2 : c = m.owner := Option.some.inj hc1
+    have hmem : m.owner ∈ auth := by simpa [lineOf] using hau
+    subst hc2
+    cases st with
+    | ptok s =>
+      obtain ⟨_, hp', ho'⟩ := ha
+      have hps : s.p.paused = true := by rw [← hp']; exact hp
+      have hms : s.owner ∈ auth := by rw [← ho']; exact hmem
+      simp [applyModel, applyPTok, PTok.apply, callerIsOwner, requireAuth, unpause, whenPaused, okSt, bind, Except.bind,
+        pure, Except.pure, ho', hps, hms] at hap
+    | pcnt s =>
+      obtain ⟨_, hp', ho'⟩ := ha
+      have hps : s.p.paused = true := by rw [← hp']; exact hp
+      have hms : s.owner ∈ auth := by rw [← ho']; exact hmem
+      simp [applyModel, applyPCnt, PCnt.apply, callerIsOwner, requireAuth, unpause, whenPaused, okSt, bind, Except.bind,
+        pure, Except.pure, ho', hps, hms] at hap
+    | alib s => obtain ⟨hk', _⟩ := ha; rw [hk'] at hk; exact absurd hk (by decide)
+    | blib s => obtain ⟨hk', _⟩ := ha; rw [hk'] at hk; exact absurd hk (by decide)
+    | aex s => obtain ⟨hk', _⟩ := ha; rw [hk'] at hk; exact absurd hk (by decide)
+    | bex s => obtain ⟨hk', _⟩ := ha; rw [hk'] at hk; exact absurd hk (by decide)
+    | cap s => obtain ⟨hk', _⟩ := ha; rw [hk'] at hk; exact absurd hk (by decide)
+    | mig s v => obtain ⟨hk', _⟩ := ha; rw [hk'] at hk; exact absurd hk (by decide)
+    | bad => exact ha.elim
+  | setList u on o => cases o <;> cases on <;> cases w <;> simp [lineOf, setName] at hc
+  | tok o => simp [lineOf] at hc
+  | pause c => simp [lineOf] at hc
+  | increment => simp [lineOf] at hc
+  | reset => simp [lineOf] at hc
+  | enable => simp [lineOf] at hc
+  | ensure => simp [lineOf] at hc
+  | complete => simp [lineOf] at hc
+  | migrate d o => simp [lineOf] at hc
+  | upgrade o => simp [lineOf] at hc
+  | setCap c => simp [lineOf] at hc
+
+theorem vUnpause_accepted {m : Mon} {l : Line} {o : Obs} (hok : o.ok = true) : vUnpause m l o = none := by
+  unfold vUnpause
+  rw [if_neg]
+  rintro ⟨-, h, -⟩
+  exact h hok
+
 /-- **one call**: fed with the model's own observation of any call (accepted or rejected) of any of
 the eight machines, the monitor reports nothing and its state keeps describing the model's -/
 theorem monitor_sound_step (cfg : Cfg) {m : Mon} {x : MSt} (ha : Agree m x) (w : Bool) (auth : List Nat) (op : GOp) :
@@ -582,11 +633,12 @@ theorem monitor_sound_step (cfg : Cfg) {m : Mon} {x : MSt} (ha : Agree m x) (w :
   | none =>
     rw [stepM_none hap]
     obtain ⟨q1, q2, q2', q3, q4, q5⟩ := rejected_quiet ha.st (lineOf w auth op) now (newEvents st st)
-    exact ⟨verdict_none (vRollback_none (fun _ => ha.prev)) q1 q2 q2' q3 q4, ⟨Or.inr rfl, q5⟩⟩
+    exact ⟨verdict_none (vRollback_none (fun _ => ha.prev)) q1 q2 q2' q3 q4 (vUnpause_rejected cfg ha.st w auth op hap _),
+      ⟨Or.inr rfl, q5⟩⟩
   | some st' =>
     rw [stepM_some hap]
     obtain ⟨q1, q2, q2', q3, q4, q5⟩ := accepted_quiet cfg ha.st now ha.prev w auth op hap (nowStep now op)
-    exact ⟨verdict_none (vRollback_none (fun h => by cases h)) q1 q2 q2' q3 q4, ⟨Or.inr rfl, q5⟩⟩
+    exact ⟨verdict_none (vRollback_none (fun h => by cases h)) q1 q2 q2' q3 q4 (vUnpause_accepted rfl), ⟨Or.inr rfl, q5⟩⟩
 
 /-- one item of a history: the authorizing addresses, the call, and the wording of a list change on
 the op line (`true`: `block` / `unblock`, `false`: `allow` / `disallow`) -/
